@@ -26,7 +26,7 @@ from checks.c13 import rjoin
 # ["atom", i] | ["str", s] | ["arr", [e..]] | ["obj", [[name, hidden, e]..]] | ["func", id, [[name, default|None]..], body]
 # | ["ext", name] | ["param", name] | ["err"]
 
-ATOMS = [("null", None), ("true", True), ("false", False), ("1", 1), ("-2.5", -2.5), ("12345678", 12345678), ("0", 0)]
+ATOMS = [("null", None), ("true", True), ("false", False), ("1", 1), ("(-2.5)", -2.5), ("12345678", 12345678), ("0", 0)]
 
 
 class EvalFail(Exception):
@@ -220,7 +220,7 @@ def base_text(v, cwd):
     with _base_lock:
         if src in _base_cache:
             return _base_cache[src]
-    rc, out, err = run_bin(["--no-trailing-newline", "-e", src], cwd)
+    rc, out, err = run_bin(["--no-trailing-newline", "-"], cwd, stdin=src.encode("utf-8"))
     ok = rc == 0
     if ok:
         try:
@@ -254,6 +254,8 @@ def var_arg(item):
         text = item["s"] if k in ("xs", "ts") else to_src(item["expr"]) if "expr" in item else item["text"]
         if via == "env":
             return var, {var: text}, {}
+        if via == "noenv":
+            return var, {}, {}
         return var + "=" + text, {}, {}
     # file kinds
     path = item.get("path", "v_%s_%d.txt" % (k, item.get("n", 0)))
@@ -335,16 +337,16 @@ def build(case, C):
             if fault == "in-unreadable":
                 os.chmod(os.path.join(C, path), 0)
     groups = mode_args + var_args + extra
-    # deterministic shuffle of the option groups (clap collects per option, so only the relative order
-    # of same-kind options matters; keep that order)
-    k = case["order"]
-    if k:
-        groups = groups[k % (len(groups) + 1):] + groups[:k % (len(groups) + 1)] if groups else groups
-        # restore relative order among var args of the same option
-        seq = [g for g in groups if g in var_args]
+    # deterministic shuffle of the option groups; options of the same kind keep their relative order
+    # (clap collects per option, main.rs then processes kind by kind)
+    pos = len(groups)
+    if case["order"]:
+        import random
+        r = random.Random(case["order"])
+        r.shuffle(groups)
         it = iter(var_args)
-        groups = [next(it) if g in seq else g for g in groups]
-    pos = (k // 7) % (len(groups) + 1) if k else len(groups)
+        groups = [next(it) if any(g is v for v in var_args) else g for g in groups]
+        pos = r.randrange(len(groups) + 1)
     groups = groups[:pos] + in_args + groups[pos:]
     for g in groups:
         argv += g
@@ -390,6 +392,7 @@ def expected(case, C):
     flags = case["flags"]
     code = {}            # code text -> expr
     mf = {}
+    wfail = []
 
     def text_of(v):
         t = base_text(v, C)
@@ -495,6 +498,7 @@ def expected(case, C):
                 r = repr_of(v[name], dict(files))
                 path = rjoin(case["mdir"], name)
                 if fl == "m-missing" or name in case.get("bad_fields", []):
+                    wfail.append(path)
                     raise Stage(1, "cannot write " + path, dict(files))
                 files[os.path.normpath(path)] = r.encode("utf-8")
                 lines.append(path + "\n")
@@ -505,24 +509,21 @@ def expected(case, C):
         if "o" in flags:
             if fl in ("o-missing-dir", "o-isdir"):
                 raise Stage(1, "cannot write -o file", files)
-            return {"exit": 0, "stdout": b"", "files": files, "ofile": outb, "mf": mf, "why": "ok", "silent": True}
+            return {"exit": 0, "stdout": b"", "files": files, "ofile": outb, "mf": mf, "why": "ok", "silent": True, "wfail": wfail}
         if fl in ("full", "epipe", "closed") and outb:
             raise Stage(1, "stdout not writable", files)
-        return {"exit": 0, "stdout": outb, "files": files, "ofile": None, "mf": mf, "why": "ok", "silent": True}
+        return {"exit": 0, "stdout": outb, "files": files, "ofile": None, "mf": mf, "why": "ok", "silent": True, "wfail": wfail}
     except Stage as s:
-        return {"exit": s.code, "stdout": b"", "files": s.files, "ofile": None, "mf": mf, "why": s.why, "silent": False}
+        return {"exit": s.code, "stdout": b"", "files": s.files, "ofile": None, "mf": mf, "why": s.why, "silent": False, "wfail": wfail}
 
 
 def thunk_of(item, var, val, case, code):
     k = item["k"]
     if k in ("xs", "ts", "xc", "tc"):
         if val is None:
-            if var not in case["env"] and item.get("via") != "env":
+            if item.get("via") != "env":
                 raise Stage(1, "environment variable not defined")
-            if item.get("via") == "env":
-                val = item["s"] if k in ("xs", "ts") else (to_src(item["expr"]) if "expr" in item else item["text"])
-            else:
-                val = case["env"][var]
+            val = item["s"] if k in ("xs", "ts") else (to_src(item["expr"]) if "expr" in item else item["text"])
         if k in ("xs", "ts"):
             return ("str", val)
         if "expr" not in item:
@@ -599,7 +600,7 @@ def model_line(case, exp):
         toks.append("mf=%s:%s" % (spec, vlib.hx(text)))
     if fl in ("o-missing-dir", "o-isdir"):
         toks.append("wfail=" + vlib.hx(case["ofile"]))
-    for p in case.get("wfail", []):
+    for p in exp["wfail"]:
         toks.append("wfail=" + vlib.hx(p))
     if fl in ("full", "epipe"):
         toks.append("full")
@@ -757,7 +758,6 @@ def mode_matrix(rng, tier):
                         c["subdirs"] = ["sub"]
                     else:
                         c["bad_fields"] = ["sub/n"]
-                        c["wfail"] = [rjoin(M_DIR, "sub/n")]
                 if rng.random() < 0.2:
                     c["extra"] = rng.choice([["-s", "500"], ["-t", "5"], ["--max-stack", "300", "--max-trace", "0"]])
                 if rng.random() < 0.15:
@@ -780,7 +780,7 @@ def gen_var_case(rng):
         item = {"k": k, "var": var, "n": i}
         if k in ("xs", "xsf"):
             item["s"] = rng.choice(TRICKY)
-            if k == "xsf" and rng.random() < 0.1:
+            if k == "xsf" and rng.random() < 0.06:
                 item["hex"] = b"bad \xff utf8".hex()
         else:
             item["expr"] = rng.choice([S(rng.choice(TRICKY)), ["arr", [["atom", 3], S("=")]],
@@ -802,7 +802,7 @@ def gen_var_case(rng):
             fields.append(["lz", False, ["ext", "lazy"]])
     if rng.random() < 0.1:
         fields.append(["unk", False, ["ext", "never_defined"]])
-    if rng.random() < 0.12 and c["ext"]:
+    if rng.random() < 0.06 and c["ext"]:
         d = dict(rng.choice(c["ext"]))
         d["k"] = rng.choice(["xs", "xc"])
         d.pop("hex", None)
@@ -816,11 +816,12 @@ def gen_var_case(rng):
         params = []
         pn = rng.sample(PNAMES, rng.choice([1, 2, 3]))
         for p in pn:
-            params.append([p, rng.choice([None, S("default of " + p), ["atom", 3]])])
+            params.append([p, rng.choice([None, S("default of " + p), ["atom", 3], S("d=\n")])])
             body_fields.append(["t_" + p, False, ["param", p]])
         for j in range(nt):
             k = rng.choice(["ts", "ts", "tsf", "tc", "tcf"])
-            var = rng.choice(pn) if rng.random() < 0.85 else rng.choice(["zz", "a b"])
+            free = [p for p in pn if p not in [t["var"] for t in c["tla"]]]
+            var = rng.choice(free) if free and rng.random() < 0.85 else rng.choice(pn + ["zz", "a b"])
             item = {"k": k, "var": var, "n": 20 + j}
             if k in ("ts", "tsf"):
                 item["s"] = rng.choice(TRICKY)
@@ -835,7 +836,7 @@ def gen_var_case(rng):
     else:
         root = ["obj", body_fields]
     c["root"] = root
-    c["flags"] = rng.choice([[], [], ["ntn"], ["m"], ["o"], ["m", "o"], ["y"], ["S"]])
+    c["flags"] = rng.choice([[], [], ["ntn"], ["m"], ["o"], ["m", "o"], ["m", "ntn"], ["o", "ntn"], ["m"], ["o"], ["y"], ["S"]])
     c["input"] = rng.choice(["e", "stdin", "file"])
     c["order"] = rng.randrange(0, 100)
     return c
@@ -883,17 +884,19 @@ def fault_cases(rng, can_chmod):
     mk("root-syntax-stdin-m", root_text="[1, 2", input="stdin", flags=["m"])
     mk("root-static-error", root_text="undefined_variable", input="e")
     # regression: zero-width characters in a lexer error used to panic (exit 101)
-    for i, t in enumerate(["﻿", "﻿1", "​", "1 ́", "­", "{a: ﻿}"]):
+    for i, t in enumerate(["\ufeff", "\ufeff1", "\u200b", "1 \u0301", "\u00ad", "{a: \ufeff}"]):
         mk("zero-width-%d" % i, root_text=t, input=rng.choice(["e", "file", "stdin"]))
     mk("ext-code-syntax", ext=[{"k": "xc", "var": "x", "text": "("}])
     mk("ext-code-syntax-unused-o", ext=[{"k": "xc", "var": "x", "text": "1 +"}], flags=["o"])
     mk("ext-code-file-syntax", ext=[{"k": "xcf", "var": "x", "text": "}"}])
-    mk("ext-code-file-missing", ext=[{"k": "xcf", "var": "x", "text": "1", "missing": True}])
+    mk("ext-code-file-missing", ext=[{"k": "xcf", "var": "x", "expr": ["atom", 5], "missing": True}])
     mk("ext-str-file-missing", ext=[{"k": "xsf", "var": "x", "s": "1", "missing": True}], flags=["o"])
     mk("ext-str-file-bad-utf8", ext=[{"k": "xsf", "var": "x", "hex": "61ff62"}])
     mk("tla-str-file-missing", tla=[{"k": "tsf", "var": "p", "s": "1", "missing": True}], root=VALUES[14][1])
     mk("tla-code-syntax", tla=[{"k": "tc", "var": "p", "text": "[,"}], root=VALUES[14][1])
-    mk("ext-env-missing", ext=[{"k": "xs", "var": "RSJ_C12_UNDEFINED", "s": "", "noenv": True}], usage=None)
+    mk("ext-env-missing", ext=[{"k": "xs", "var": "RSJ_C12_UNDEFINED", "s": "", "via": "noenv"}])
+    mk("ext-code-env-missing-o", ext=[{"k": "xc", "var": "RSJ_C12_UNDEFINED", "expr": ["atom", 3], "via": "noenv"}], flags=["o"])
+    mk("tla-env", tla=[{"k": "ts", "var": "p", "s": "from=env\n", "via": "env"}], root=VALUES[14][1], flags=["S"])
     mk("ext-lazy-unused", ext=[{"k": "xc", "var": "x", "expr": ["err"]}], root=S("fine"), flags=["S"])
     mk("ext-lazy-used", ext=[{"k": "xc", "var": "x", "expr": ["err"]}], root=["arr", [["ext", "x"]]], flags=["o"])
     mk("ext-dup-across-kinds", ext=[{"k": "xc", "var": "x", "expr": ["atom", 3]}, {"k": "xs", "var": "x", "s": "1"}])
@@ -905,18 +908,10 @@ def fault_cases(rng, can_chmod):
     # usage errors
     mk("usage-S-y", flags=["S", "y"], root=S("x"))
     mk("usage-varfile-noeq", ext=[{"k": "xsf", "var": "x", "s": "1", "noeq": True}])
-    mk("usage-tla-varfile-noeq", tla=[{"k": "tcf", "var": "x", "text": "1", "noeq": True}], flags=["o"])
+    mk("usage-tla-varfile-noeq", tla=[{"k": "tcf", "var": "x", "expr": ["atom", 5], "noeq": True}], flags=["o"])
     mk("usage-unknown-flag", extra=["--definitely-not-a-flag"], usage="unknown flag", flags=["o"])
     mk("usage-bad-number", extra=["-s", "many"], usage="bad -s value")
     return out
-
-
-def fix_env_missing(case):
-    """`--ext-str VAR` with VAR absent from the environment."""
-    for it in case["ext"]:
-        if it.get("noenv"):
-            it.pop("noenv")
-            it.pop("via", None)
 
 
 # ---------------------------------------------------------------- parser tie (in-process)
@@ -978,15 +973,15 @@ def run(rep):
         cases += mode_matrix(rep.rng, rep.tier)
         for _ in range(150 if rep.tier == "quick" else 4000):
             cases.append(gen_var_case(rep.rng))
-        for c in cases:
-            fix_env_missing(c)
         with ThreadPoolExecutor(max_workers=4) as ex:
             results = list(ex.map(lambda ic: run_case(base, ic[0], ic[1]), enumerate(cases)))
         for src, rc, out, err in _base_bad:
             rep.violation("c12:base:" + src, "default mode on the JSON literal %s: exit %r, output %r does not parse "
-                          "back to the value (stderr %r)" % (src[:200], rc, out, err), {"argv": ["--no-trailing-newline", "-e", src]})
+                          "back to the value (stderr %r)" % (src[:200], rc, out, err), {"argv": ["--no-trailing-newline", "-"], "stdin": src})
+        rep.extra["t_runs_s"] = round(__import__("time").time() - rep.t0, 1)
         lines = [model_line(r["case"], r["exp"]) for r in results]
         mo = vlib.model(lines)
+        rep.extra["t_model_s"] = round(__import__("time").time() - rep.t0, 1)
         for r, line, m in zip(results, lines, mo):
             case = r["case"]
             key = case_key(case)
@@ -1007,7 +1002,7 @@ def run(rep):
             if bad:
                 rep.violation("c12:" + key, "%s | argv=%r" % (bad, r["argv"]), replay)
                 continue
-            if case["fault"] == "closed":
+            if case["fault"] == "closed" or case.get("usage"):
                 continue
             got = impl_answer(case, r["rc"], r["out"] if case["fault"] not in ("full", "epipe") else b"", r["err"], r["found"])
             if got != canon_model(m):
@@ -1026,7 +1021,7 @@ def replay(record):
         return 1 if m != r.get("python") else 0
     vlib.build_cli()
     if "argv" in r and "case" not in r:
-        rc, out, err = run_bin(r["argv"], "/tmp")
+        rc, out, err = run_bin(r["argv"], "/tmp", stdin=r.get("stdin", "").encode("utf-8"))
         print("exit:", rc, "stdout:", out, "stderr:", err[-400:])
         return 1
     base = os.path.realpath(tempfile.mkdtemp(prefix="rsj-c12-", dir="/tmp"))
